@@ -76,6 +76,12 @@ let () =
     (match !cur with
      | Some (f, ln) ->
        let os = List.rev !obs in
+       if f = ["env"; "tick"] then begin
+         (* the passage of time alone: no item for the model (it has no clock); anything observed is a fault *)
+         if os <> [] then
+           faults := ("the passage of time alone (11 s, every goroutine blocked) caused: " ^
+                      String.concat "; " (List.map show_obs os)) :: !faults
+       end else
        let it = (match f with
            | "env" :: rest -> A.IEnv (parse_env rest, os)
            | ["rel"; "loop.conn"; k] -> A.IRel (M.SConn, Some (nat k), os)
